@@ -213,7 +213,7 @@ class Player:
 
         Note that this event is only posted for simpler types of player
         variables, including player variables that are integers, floating
-        point numbers, or strings. More complex player variables (lists,
+        point numbers, strings or None. More complex player variables (lists,
         dicts, etc.) do not get this event posted.
 
         This event is posted for a single player variable changing, meaning
@@ -282,7 +282,9 @@ class Player:
         except TypeError:
             change = prev_value != value
 
-        if (change or new_entry) and isinstance(value, (int, str, float)):
+        # None is a simple value as well: a variable which is reset to None has to notify its listeners (e.g.
+        # placeholders which read it) just like a machine variable does
+        if (change or new_entry) and (value is None or isinstance(value, (int, str, float))):
             self.log.debug("Setting '%s' to: %s, (prior: %s, change: %s)",
                            name, self.vars[name], prev_value, change)
 
